@@ -159,7 +159,9 @@ class Check:
         return ok
 
     def info(self, rule, msg, loc=''):
-        self.infos.append({'rule': rule, 'msg': msg, 'loc': loc})
+        d = {'rule': rule, 'msg': msg, 'loc': loc}
+        if d not in self.infos:
+            self.infos.append(d)
 
     def floor(self, rule, what, count, minimum):
         """Instance floor: fewer matches than confirmed by hand => the rule
